@@ -1,12 +1,13 @@
 (* Correspondence evaluator for Models/PerpLedger.v: per step the harness reports which MTPs appeared,
-   changed (per field delta) or disappeared, and afterwards the pool's 12 recorded aggregates
-   (side x asset x {liabilities, custody, collateral}) and the open counter. *)
+   changed (per field delta) or disappeared, and afterwards the 12 recorded aggregates of every perpetual pool
+   (field = 12 * pool slot + side x asset x {liabilities, custody, collateral}; up to two pools) and the module's open
+   counter. An MTP contributes only to the fields of its own pool. *)
 From Coq Require Import ZArith List Bool Arith.
 From Elys Require Import Base.Res Base.Fn Models.SumLedger Models.PerpLedger.
 Import ListNotations.
 Open Scope Z_scope.
 
-Definition all_fields : list nat := seq 0 12.
+Definition all_fields : list nat := seq 0 24.
 
 Record pobs := mkPO { po_agg : list Z; po_cnt : Z }.
 
